@@ -93,3 +93,94 @@ func VP_C03_typed() {
 	}
 	vp.Cover("end")
 }
+
+// large declared sizes with part of the payload present: a byte array declaring
+// 65537 or 131073 bytes over a stream that ends after 0, 1, 65535, 65536 (a
+// chunk boundary) or 65537 bytes of payload - a strict prefix is an error for
+// every target, never a success and never a panic.
+func VP_C03_big_prefix() {
+	decl := []int{65537, 131073}[vp.Choice(2)]
+	have := []int{0, 1, 65535, 65536, 65537}[vp.Choice(5)]
+	if have > decl {
+		have = decl
+	}
+	vp.SizeBound(decl + 64)
+	doc := append([]byte{TagByteArray}, vpBE(uint64(decl), 4)...)
+	payload := vp.Noise(have)
+	if have > 0 {
+		payload[0], payload[have-1] = vp.Byte(), vp.Byte()
+	}
+	doc = append(doc, payload...)
+	var src DecoderReader = &vpByteReader{b: doc}
+	if vp.Choice(2) == 1 {
+		src = bytes.NewReader(doc)
+	}
+	d := NewDecoder(src)
+	d.NetworkFormat(true)
+	var err error
+	switch vp.Choice(4) {
+	case 0:
+		var v []byte
+		_, err = d.Decode(&v)
+	case 1:
+		var v any
+		_, err = d.Decode(&v)
+	case 2:
+		var v []int8
+		_, err = d.Decode(&v)
+	default:
+		var v RawMessage
+		_, err = d.Decode(&v)
+	}
+	if have < decl {
+		vp.Assert(err != nil, "a strict prefix of a document is not a successful decode")
+	} else {
+		vp.Assert(err == nil, "the complete document decodes")
+	}
+	vp.Cover("end")
+}
+
+// deep nesting: lists (and compounds) nested 511..600 levels through every
+// byte-level decoder and the text converter - a value or an error, no panic.
+func VP_C03_deep() {
+	depth := []int{100, 511, 512, 513, 514, 600}[vp.Choice(6)]
+	vp.SizeBound(8*depth + 64)
+	vp.Unwind(depth + 64)
+	var doc []byte
+	compound := vp.Choice(2) == 1
+	for i := 0; i < depth; i++ {
+		if compound {
+			doc = append(doc, TagCompound, 0, 1, 'a')
+		} else {
+			doc = append(doc, TagList, 0, 0, 0, 1)
+		}
+	}
+	tag := byte(TagList)
+	if compound {
+		tag = TagCompound
+		doc = append(doc, TagByte, 0, 1, 'b', vp.Byte())
+		for i := 0; i < depth; i++ {
+			doc = append(doc, 0)
+		}
+		doc = append(doc, 0)
+	} else {
+		doc = append(doc, TagByte, 0, 0, 0, 1, vp.Byte())
+	}
+	switch vp.Choice(4) {
+	case 0:
+		var m RawMessage
+		_ = m.UnmarshalNBT(tag, &vpByteReader{b: doc})
+	case 1:
+		var m StringifiedMessage
+		_ = m.UnmarshalNBT(tag, &vpByteReader{b: doc})
+	case 2:
+		m := RawMessage{Type: tag, Data: doc}
+		_ = m.String()
+	default:
+		var v any
+		d := NewDecoder(&vpByteReader{b: append([]byte{tag}, doc...)})
+		d.NetworkFormat(true)
+		_, _ = d.Decode(&v)
+	}
+	vp.Cover("end")
+}
